@@ -263,6 +263,12 @@ def gen_tree(rng, depth, d, names, scalar_ok=True, allow_expm=True):
         for _ in range(n):
             z = rng.random()
             sc.append(float(rng.uniform(-2, 2)) if z < 0.4 else complex(rng.uniform(-1, 1), rng.uniform(-1, 1)) if z < 0.8 else int(rng.integers(1, 4)))
+        if rng.random() < 0.08:
+            # scalars on BOTH sides of the matrix whose product among themselves underflows to zero, while the product
+            # taken in argument order stays representable: ('s_mult', 1e-200, (1e150 * M), 1e-200) * 1e250 = M
+            c1 = float(rng.uniform(0.5, 2))
+            inner = ("s_mult", 1e-200 * c1, ("s_mult", 1e150, gen_tree(rng, depth - 1, d, names, allow_expm=allow_expm)), 1e-200)
+            return ("s_mult", inner, 1e250)
         if rng.random() < 0.15:
             # exact Python integers whose product leaves the 64-bit range while the overall coefficient is ordinary
             # (scalars are numbers, not arrays: 10**11 * 10**12 * 1e-23 is 1.0)
@@ -460,8 +466,13 @@ def c19_driver(a, col):
             mu1 += T
             mu2 += T
         delay = float(rng.choice([0.0, rng.uniform(-8, 8) * w, rng.uniform(-1, 1) * w]))
-        e1 = Envelope(temporal_profile=TemporalProfile.Gaussian.with_params(mu=mu1, sigma=s1)) if x >= 0.1 else Envelope()
-        e2 = Envelope(temporal_profile=TemporalProfile.Gaussian.with_params(mu=mu2, sigma=s2)) if x >= 0.1 else Envelope()
+        def _profile(mu, sg):
+            # a centre offset of zero is the documented default: leave it out half of the time
+            if mu == 0.0 and rng.random() < 0.5:
+                return TemporalProfile.Gaussian.with_params(sigma=sg)
+            return TemporalProfile.Gaussian.with_params(mu=mu, sigma=sg)
+        e1 = Envelope(temporal_profile=_profile(mu1, s1)) if x >= 0.1 else Envelope()
+        e2 = Envelope(temporal_profile=_profile(mu2, s2)) if x >= 0.1 else Envelope()
         if x < 0.1:
             mu1 = mu2 = 0.0
         # the overlap of the temporal profiles does not involve the carriers: wavelengths (any scale relative to the
@@ -511,6 +522,14 @@ def c19_driver(a, col):
         if exc is not None:
             col.add([_V("C19", False, "spurious-exception", f"{type(exc).__name__}: {exc}", ("overlap", "raise", dec), decade=dec)], replay)
             continue
+        # the answer against the parameters the CALLER asked for (the contract reads them back from the profile
+        # objects, which is blind to a profile that was built with other values than the ones passed)
+        if x >= 0.1:
+            dl = delay + mu2 - mu1
+            want = math.sqrt(2 * s1 * s2 / (s1 * s1 + s2 * s2)) * math.exp(-dl * dl / (2 * (s1 * s1 + s2 * s2)))
+            okp = abs(float(np.real(r12)) - want) <= 1e-6
+            col.add([_V("C19", okp, "wrong-overlap-for-requested-profile", f"asked for mu=({mu1:.3g},{mu2:.3g}) sigma=({s1:.3g},{s2:.3g}) delay={delay:.3g}: got {r12}, closed form {want:.9g}; profiles hold {e1.temporal_profile.params} / {e2.temporal_profile.params}",
+                        ("overlap-requested", dec), decade=dec)], replay)
         sym = abs(float(np.real(r12)) - float(np.real(r21))) <= 1e-6
         col.add([_V("C19", sym, "asymmetric", f"O(1,2,d)={r12} but O(2,1,-d)={r21}", ("overlap-symmetry", dec), decade=dec)], replay)
         col.programs += 1
